@@ -408,7 +408,7 @@ def stream_cachefs(ctx: Ctx) -> Stream:
 		for rec in load_corpus():
 			if rec.get('stream') == 'cachefs':
 				cases.append(case_cachefs(ctx, rng, lib, 0, bool(rec.get('seeded', True)), corpus_ops=rec['ops'], shape=rec['shape'], variants=rec['variants']))
-		n = ctx.scale(12, 80)
+		n = ctx.scale(12, 60)
 		for i in range(n):
 			seeded = (i % 5) != 0
 			cases.append(case_cachefs(ctx, rng, lib, ctx.scale(9, 16) if seeded else ctx.scale(5, 8), seeded))
@@ -504,10 +504,27 @@ def search_warm_cold(ctx: Ctx, only: list[tuple[str, dict[str, int], list[list[s
 	for rec in load_corpus():
 		if rec.get('search') == 'warm-cold' and only is None:
 			histories.append((rec['shape'], rec['variants'], rec['ops']))
-	n_random = ctx.scale(8, 120) if only is None else 0
+	if only is None:
+		# targeted histories (addendum 16): on the graphs with prefix-named siblings (always) and on two other shapes, every
+		# module infers a type through an import; build, change the declared type of one module, build again, change another
+		# one, plain run
+		others = [sh for sh in graph_shapes() if sh not in ('siblings', 'siblings2')]
+		for shape in ['siblings2', 'siblings', *rng.sample(others, ctx.scale(2, len(others)))]:
+			graph = graph_shapes()[shape]
+			mods = list(graph)
+			# a module whose dotted path extends another module's path is edited in its own history
+			longer = [m for m in mods if any(m != o and m.startswith(o) for o in mods)] if shape.startswith('siblings') else []
+			firsts = [*longer, *(rng.choice(mods) for _ in range(ctx.scale(0 if longer else 1, 3)))]
+			for m1 in firsts:
+				variants = {m: 4 * rng.randrange(1, 6) + rng.randrange(4) for m in graph}
+				m2 = rng.choice(mods)
+				ops = [['run', '1'], ['edit', m1, str(4 * (variants[m1] // 4) + (variants[m1] + 1 + rng.randrange(3)) % 4)], ['run', '1'],
+					['edit', m2, str(rng.randrange(N_VARIANTS))], ['run', rng.choice(['0', '1'])]]
+				histories.append((shape, variants, ops))
+	n_random = ctx.scale(8, 80) if only is None else 0
 	hist: dict[str, int] = {}
 	seen: set[str] = set()
-	budget_runs = ctx.scale(64, 700)
+	budget_runs = ctx.scale(84, 480)
 	runs = 0
 	for hi in range(len(histories) + n_random):
 		if runs >= budget_runs:
@@ -628,8 +645,8 @@ def search_truncation(ctx: Ctx, only: dict[str, Any] | None = None) -> SearchRes
 		shutil.rmtree(case.proj.root, ignore_errors=True)
 
 	# (2) whole runs over a damaged cache
-	n_states = ctx.scale(2, 5)
-	per_state = ctx.scale(14, 50)
+	n_states = ctx.scale(2, 4)
+	per_state = ctx.scale(14, 40)
 	if only is not None:
 		n_states = 1 if only.get('search') == 'truncation-run' else 0
 	for si in range(n_states):
@@ -653,7 +670,7 @@ def search_truncation(ctx: Ctx, only: dict[str, Any] | None = None) -> SearchRes
 		if ctx.thorough and si == 0:
 			for rel in files:
 				if rel.startswith(f'{PKG}/') and sizes[rel] <= 4096:
-					targets.extend((rel, k) for k in range(0, sizes[rel], 11))
+					targets.extend((rel, k) for k in range(0, sizes[rel], 23))
 		for _ in range(per_state if only is None else 0):
 			rel = rng.choice(files if rng.random() < 0.4 else [f for f in files if f.startswith(f'{PKG}/')])
 			targets.append((rel, rng.choice([0, 1, sizes[rel] - 1, sizes[rel] - 2, rng.randrange(sizes[rel])])))
@@ -697,7 +714,7 @@ def search_disabled(ctx: Ctx, only: list[tuple[str, dict[str, int], list[list[st
 	for rec in load_corpus():
 		if rec.get('search') == 'disabled' and only is None:
 			plans.append((rec['shape'], rec['variants'], rec['ops']))
-	for _ in range(ctx.scale(4, 40) if only is None else 0):
+	for _ in range(ctx.scale(4, 24) if only is None else 0):
 		shape = rng.choice(list(graph_shapes()))
 		ops: list[list[str]] = []
 		if rng.random() < 0.7:
@@ -763,13 +780,9 @@ STATEMENTS: dict[str, str] = {
 	'evict_keeps_written': 'after a cache miss the file named by the current identity exists and holds the fresh value, whatever the eviction glob matched',
 	'evict_safe': 'both coherence invariants (tree cache, symbol cache) survive the deletion of an arbitrary list of cache files: the over-matching glob is benign',
 	'truncate': 'no proper prefix of the compact JSON encoding of an object/array is bracket-balanced outside string literals (JSON printer model)',
-	'symbols_statement (def)': 'tables of the warm run = tables of the cold run, all semantics/graphs/histories — FALSE on the code as it is',
-	'symbols_counterexample': 'negation of symbols_statement on the chain a→b→c (edit c): Module.identity covers direct imports only (F5)',
-	'symbols_partial': 'symbols_statement holds when what a dependant sees of a module depends on that module\'s own tree only (DirectOnly): every table of a run is the cache-free pureTable',
-	'symbols_partial_closure': 'for the closure-keyed (Merkle) identity: equal identities imply equal cache-free symbol tables, for all semantics, graphs, depths',
-	'disabled_statement (def)': 'enabled = False: no cache file opened/created/unlinked — FALSE on the code as it is',
-	'disabled_counterexample': 'negation: SymbolDBPersistor._can_store ignores enabled (F4)',
-	'disabled_partial': 'with the store gate of proposed/C05-store-when-disabled.diff: log empty and cache directory unchanged, for every world',
+	'symbols': 'for every semantics, import graph and acyclic history: the symbol table of every module in the warm run = its table in the run over the cleared cache directory (closure-keyed Module.identity, a383b4a)',
+	'symbols_partial_closure': 'equal closure-keyed identities imply equal cache-free symbol tables, for all semantics, graphs, depths (functional form of the key-coverage lemma id_covers)',
+	'disabled': 'enabled = False: the access log of a run is empty and the cache directory unchanged, for every semantics and world (store gated on enabled, a3f0216)',
 }
 
 
@@ -794,16 +807,17 @@ def run(ctx: Ctx) -> int:
 			searches = [search_warm_cold(ctx), search_truncation(ctx), search_disabled(ctx)]
 	return common.finish(ctx, proof, streams, searches, statements=STATEMENTS,
 		partial={
-			'sentence 1 (warm output = cold output)': 'proved on the model for the tree layer (tree_key) and — under DirectOnly or with the closure-keyed identity — for the symbol layer (symbols_partial*); FALSE in general (symbols_counterexample = F5). Proved per module: tree and symbol table of the warm run = those of the cold run; that the rendered text (a function of the tree and of the tables of the session in load order) is equal is checked by the search only; the parser cache (pickle) is correspondence/search only',
-			'sentence 1 (no cache file read or written when disabled)': 'FALSE on the code (disabled_counterexample = F4); proved for the gated store (disabled_partial)',
-			'sentence 2 (damaged file: rebuild or fail)': 'truncate (JSON printer model) + Hyp.prefix_invalid inside tree_key/symbols_partial (histories contain trunc ops); pickle truncation is search only',
+			'sentence 1 (warm output = cold output)': 'proved on the model per module: tree (tree_key, tree_key_warm_cold) and symbol table (symbols) of the warm run = those of the cold run, for acyclic import graphs; that the rendered text (a function of the tree and of the tables of the session in load order) is equal is checked by the search only; the parser cache (pickle) is correspondence/search only',
+			'sentence 1 (no cache file read or written when disabled)': 'proved (disabled)',
+			'sentence 2 (damaged file: rebuild or fail)': 'truncate (JSON printer model) + Hyp.prefix_invalid inside tree_key/symbols (histories contain trunc ops); pickle truncation is search only',
 			'search_only': 'failure status equality warm/cold; output text of the real renderer',
+			'regression': 'corpus/C05: the histories that violated the property before a3f0216 / a383b4a are replayed first and must pass',
 		},
 		assumptions=[
 			'md5 is injective on the identities of a history and hex digests contain no "-" (Hyp.tree_inj, hash_inj, identL_inj, *_nodash) — hypotheses of the theorems, instantiated by unary codes in the examples',
 			'the JSON decoder rejects text whose brackets do not balance outside string literals; the encoders write valid text (Hyp.valid_parse, valid_analyse, prefix_invalid)',
 			'module keys contain no "-" and differ from "parser.cache" (KeyOK); the cache directory is disjoint from the source directories',
-			'import graphs are acyclic (Acyclic / cyc = false): with a cycle the table of a module depends on the entry point of the traversal',
+			'import graphs are acyclic (Acyclic / cyc = false): with a cycle the identity of a module falls back to file hashes and its table depends on the entry point of the traversal',
 			'library modules are not edited during a history',
 		],
 		trusted=['lark (parser pickle), json, pickle, glob/fnmatch, os file-system semantics', 'sys.addaudithook reports every open()/unlink below the cache directory'])
